@@ -8,6 +8,9 @@
 #define DAG_RECORDER 2
 #include "dag_recorder_impl.h"
 
+#ifdef MYTH_VERIF
+unsigned long long (*dr_verif_clock)(void) = 0;
+#endif
 /* the (only) shared global variable */
 
 dr_global_state GS = {
